@@ -901,3 +901,5 @@ func cellLoadsFlow(addr ssa.Value, sinks []*ssa.Function, root *ssa.Function, se
 	}
 	return ""
 }
+
+func types_Identical(a, b types.Type) bool { return types.Identical(a, b) }
